@@ -1,19 +1,20 @@
 #!/bin/bash
-# usage: verify_seeds.sh <worktree-name> <seed-dir>...   (seed-dir like /tmp/wt/out/C01/a)
-WT=/tmp/wt/$1; shift
+# usage: [ROOT=/tmp/wt2] verify_seeds.sh <worktree-name> <seed-dir>...   (seed-dir like $ROOT/out/C01/a)
+ROOT=${ROOT:-/tmp/wt}
+WT=$ROOT/$1; shift
 if [ ! -d $WT ]; then git -C /repo worktree add --detach $WT HEAD -q; fi
 for d in "$@"; do
   id=$(basename $(dirname $d))-$(basename $d)
-  out=/tmp/wt/verified/$id.txt
-  mkdir -p /tmp/wt/verified
+  out=$ROOT/verified/$id.txt
+  mkdir -p $ROOT/verified
   cd $WT && git checkout -q -- . && git clean -fdq
   echo "== $id" > $out
   # clean demo
-  (cd $WT && cp $d/demo.py demo_seed.py && PYTHONPATH=$WT/src timeout 900 /venv/bin/python demo_seed.py > /tmp/wt/verified/$id.clean.log 2>&1; echo "clean_demo_exit=$?" >> $out)
+  (cd $WT && cp $d/demo.py demo_seed.py && PYTHONPATH=$WT/src timeout 900 /venv/bin/python demo_seed.py > $ROOT/verified/$id.clean.log 2>&1; echo "clean_demo_exit=$?" >> $out)
   if ! (cd $WT && patch -p1 --fuzz=3 --no-backup-if-mismatch -s -i $d/patch.diff >> $out 2>&1); then echo "apply=FAILED" >> $out; continue; fi
   echo "apply=ok" >> $out
-  (cd $WT && PYTHONPATH=$WT/src timeout 900 /venv/bin/python demo_seed.py > /tmp/wt/verified/$id.patched.log 2>&1; echo "patched_demo_exit=$?" >> $out)
-  (cd $WT && rm -f demo_seed.py && /tmp/wt/tools/suite.py $WT > /tmp/wt/verified/$id.suite.log 2>&1; tail -1 /tmp/wt/verified/$id.suite.log | cut -c1-60 >> $out)
-  (cd $WT && git diff > /tmp/wt/verified/$id.rebased.diff; git checkout -q -- . ; git clean -fdq)
+  (cd $WT && PYTHONPATH=$WT/src timeout 900 /venv/bin/python demo_seed.py > $ROOT/verified/$id.patched.log 2>&1; echo "patched_demo_exit=$?" >> $out)
+  (cd $WT && rm -f demo_seed.py && $ROOT/tools/suite.py $WT > $ROOT/verified/$id.suite.log 2>&1; tail -1 $ROOT/verified/$id.suite.log | cut -c1-60 >> $out)
+  (cd $WT && git diff > $ROOT/verified/$id.rebased.diff; git checkout -q -- . ; git clean -fdq)
 done
 git -C /repo worktree remove --force $WT
